@@ -637,7 +637,7 @@ def _forced_conflict(draw, base):
     n = len(base["cells"])
     shape = draw(st.sampled_from(["del_vs_edit", "edit_vs_del", "both_edit_source", "both_edit_outputs", "both_edit_meta",
                                   "both_insert_same_pos", "both_insert_similar", "both_insert_runs", "both_insert_runs", "insert_next_to_edit", "insert_next_to_del",
-                                  "both_append_nonl", "both_attach", "both_nbmeta", "both_minor", "both_del", "both_ec",
+                                  "both_append_nonl", "both_attach", "both_nbmeta", "both_minor", "both_del", "both_ec", "both_change_id",
                                   "both_same_edit", "both_edit_same_output", "both_edit_same_output", "transient_meta", "type_vs_edit", "type_vs_edit", "type_vs_edit", "both_rerun", "both_rerun", "both_rerun", "both_rerun", "two_outputs", "two_outputs", "both_insert_block"]))
     usedl, usedr = _ids(l), _ids(r)
     if shape == "both_insert_runs":
@@ -712,6 +712,16 @@ def _forced_conflict(draw, base):
     elif shape == "both_edit_meta":
         l["cells"][i] = draw(edit_cell(c, minor, ["metadata"]))
         r["cells"][i] = draw(edit_cell(c, minor, ["metadata"]))
+    elif shape == "both_change_id":
+        # both sides re-created the cell (cut and paste): same content, a new id on each side
+        if "id" in c:
+            l["cells"][i]["id"] = _fresh_id(usedl, "Lid")
+            r["cells"][i]["id"] = _fresh_id(usedr, "Rid") if draw(st.sampled_from([True, True, False])) else l["cells"][i]["id"]
+            if draw(st.booleans()):
+                r["cells"][i] = draw(edit_cell(r["cells"][i], minor, ["source"], n_edits=1))
+        else:
+            l["cells"][i] = draw(edit_cell(c, minor, ["source"]))
+            r["cells"][i] = draw(edit_cell(c, minor, ["source"]))
     elif shape == "both_ec":
         l["cells"][i] = draw(edit_cell(c, minor, ["ec", "outputs"]))
         r["cells"][i] = draw(edit_cell(c, minor, ["ec", "outputs"]))
@@ -794,14 +804,14 @@ def _forced_conflict(draw, base):
         b_["cells"][i] = draw(edit_cell(c, minor, draw(st.sampled_from([["rerun"], ["rerun"], ["outputs"], ["source"], ["rerun", "toggle"], ["ec"]]))))
     elif shape == "transient_meta":
         # keys the merger treats as transient: collapsed / scrolled (/ autoscroll): remove on one side, change on the other ...
-        key = draw(st.sampled_from(["collapsed", "scrolled"])) if c["cell_type"] == "code" else "collapsed"
+        key = draw(st.sampled_from(["collapsed", "scrolled", "scrolled"])) if c["cell_type"] == "code" else "collapsed"
         vals = [True, False] if key == "collapsed" or c["cell_type"] != "code" else [True, False, "auto"]
         if c["cell_type"] == "code":
             v0 = draw(st.sampled_from(vals))
             for nb_ in (base, l, r):
                 nb_["cells"][i]["metadata"][key] = v0
             for side in (l, r):
-                act = draw(st.sampled_from(["remove", "change", "change", "keep"]))
+                act = draw(st.sampled_from(["remove", "change", "change", "change", "keep"]))
                 if act == "remove":
                     del side["cells"][i]["metadata"][key]
                 elif act == "change":
